@@ -654,9 +654,9 @@ func runBytes(c Case) *vt.Outcome {
 					o.Label("excluded:" + via + ":vng-metadata-would-crash-process")
 					continue
 				}
-				if vt.IsKnown("C11/alloc/vng") {
+				if vt.IsKnown("C11/alloc/vng/big-blocks") {
 					if seg, sum, err := vngScreen(input); err == nil && (seg > segmentLimit || sum > lengthsLimit) {
-						rep.report("C11/alloc/vng", "")
+						rep.report("C11/alloc/vng/big-blocks", "")
 						o.Label("excluded:" + via + ":vng-declares-huge-segment-or-length")
 						continue
 					}
